@@ -741,6 +741,11 @@ class VectorContainer:
                 else:
                     value = str(value)
 
+            # Keep the copy's own (deep-copied) values to carry over: taking
+            # them from `self` would leave the elements of object-dtype
+            # variables shared between the original and the result
+            old_values = reindexed.__dict__[f'_{name}']
+
             # Initialise the replacement with the correct length, and the fill
             # value
             reindexed.__dict__[f'_{name}'] = np.full(
@@ -750,7 +755,7 @@ class VectorContainer:
             # Copy over individual values
             # TODO: Vectorise this?
             for new, old in positions.items():
-                reindexed[name][new] = self[name][old]
+                reindexed[name][new] = old_values[old]
 
         return reindexed
 
